@@ -473,9 +473,27 @@ def instances(rng):
     yield Inst("BM-neg", "BM", f"{rng.choice(POSC)}({rng.choice(VARS)} + {rng.choice(POSC)}) = {rng.choice(POSC)}", "bm_neg", applicable=False, contexts=EQ_CONTEXTS)
 
 
+def big_instances(rng):
+    """large-magnitude coefficients (the factoring helper enumerates divisors up to sqrt(n): a
+    12-13 digit coefficient costs a few tenths of a second, so only a handful are driven)"""
+    v = rng.choice(VARS)
+    e = rng.choice(["", "^2", "^3"])
+    big = rng.choice(["1000000000039", "2500000000000", "999999999989", "1234567890123", "7500000000000.5"])
+    small = rng.choice(["3", "4", "2", "12"])
+    pair = (big, small) if rng.random() < 0.5 else (small, big)
+    yield Inst("DF", "DF", f"{pair[0]}{v}{e} + {pair[1]}{v}{e}", "df", contexts=["{}", "q + ({})", "({}) * q"])
+    yield Inst("CA*", "CA", f"{big.split('.')[0]} * {rng.choice(['1000003', '99999999977'])}", "ca", {"op": "*"}, contexts=["{}", "{} + q"])
+    yield Inst("CS+", "CS", f"{big}{v} + {small}", "cs", {"K": "Add"}, contexts=["{}", "({}) * q"])
+    yield Inst("VM", "VM", f"{big.split('.')[0]}{v}^2 * {small}{v}^3", "vm", {"x": v, "e1": "^2", "e2": "^3"}, contexts=["{}", "q + ({})"])
+
+
 def run(rec, cfg):
     rec.accept = {"schema"}
     rng = cfg.rng("c08")
+    for _ in range(cfg.scale(2, 12)):
+        for inst in big_instances(rng):
+            run_instance(rec, inst, rng, inst.contexts)
+            rec.arm("schema:big-coefficient-instances")
     n = cfg.scale(260, 30000)
     for i in range(n):
         if cfg.out_of_time():
